@@ -374,7 +374,9 @@ class Project:
         The name of the path (minus its extension) should be a valid SPDX
         License Identifier.
         """
-        if not path.suffix:
+        # Some identifiers contain a dot themselves (OLDAP-2.0.1). A file that
+        # is named exactly like an identifier has no file extension.
+        if not path.suffix or path.name in self.license_map:
             raise SpdxIdentifierNotFoundError(f"{path} has no file extension")
         if path.stem in self.license_map:
             return path.stem
